@@ -234,3 +234,10 @@ func SeedFromEnv() int64 {
 	}
 	return 1
 }
+
+// Debugf prints timing / progress information when VERIF_DEBUG is set.
+func Debugf(format string, a ...any) {
+	if os.Getenv("VERIF_DEBUG") != "" {
+		fmt.Printf("debug: "+format+"\n", a...)
+	}
+}
